@@ -548,7 +548,7 @@ func buildHistory(p *Program, recs []Rec) ([]lin.Ev, string) {
 					continue
 				}
 				v, ok := fired[k]
-				evs = append(evs, lin.Ev{Op: model.Op{K: model.PSweepKey, Key: k}, Res: &model.Res{V: v, OK: ok}, Inv: r.Inv, Ret: r.Ret, Thread: r.Thread, Parent: parent, Nows: spanNow(r), CBAmbig: callbackSwapOverlaps(recs, r)})
+				evs = append(evs, lin.Ev{Op: model.Op{K: model.PSweepKey, Key: k}, Res: &model.Res{V: v, OK: ok}, Inv: r.Inv, Ret: r.Ret, Thread: r.Thread, Parent: parent, Nows: spanNow(r), CBAmbig: callbackSwapOverlaps(recs, r), CBCands: callbackCands(p, recs, r)})
 			}
 		case model.MSize, model.CCount:
 			// C08: Size/Count is exact only while no modifying call is in flight. A concurrent
@@ -590,6 +590,9 @@ func buildHistory(p *Program, recs []Rec) ([]lin.Ev, string) {
 			ev := lin.Ev{Op: r.Op, Res: rp, Inv: r.Inv, Ret: ret, Thread: r.Thread, Reads: clockReads(r.Nows)}
 			if r.Op.K == model.CDelete || r.Op.K == model.CGetAndDelete {
 				ev.CBAmbig = callbackSwapOverlaps(recs, r)
+				if ev.CBAmbig {
+					ev.CBCands = callbackCands(p, recs, r)
+				}
 			}
 			if usesDefault(&r.Op) {
 				for j := range recs {
@@ -635,6 +638,61 @@ func clockReads(reads []int64) []int64 {
 
 // callbackSwapOverlaps: a SetEvictedCallback of another thread overlaps r (C06: the call may use
 // the callback in force at any moment of the call).
+// callbackCands: every callback setting that may have been in force at some moment of r - the one at its invocation
+// (constructor setting or the last SetEvictedCallback completed before r began; several when those overlap each
+// other) and every SetEvictedCallback overlapping r.
+func callbackCands(p *Program, recs []Rec, r *Rec) []model.CBState {
+	st := func(c *Rec) model.CBState {
+		s := model.CBState{On: c.Op.On}
+		if c.Op.On {
+			s.Tag = 1
+			if c.Op.N == 2 {
+				s.Tag = 2
+			}
+		}
+		return s
+	}
+	var out []model.CBState
+	lastRet := int64(-1)
+	for j := range recs {
+		c := &recs[j]
+		if c.Op.K == model.CSetCallback && c.Done && c.Ret < r.Inv && c.Ret > lastRet {
+			lastRet = c.Ret
+		}
+	}
+	if lastRet < 0 {
+		cs := model.CBState{On: p.Spec.CB}
+		if cs.On {
+			cs.Tag = 1
+		}
+		out = append(out, cs)
+	}
+	for j := range recs {
+		c := &recs[j]
+		if c.Op.K != model.CSetCallback || c == r {
+			continue
+		}
+		switch {
+		case c.Done && c.Ret < r.Inv:
+			// completed before r began: in force at r's invocation unless definitely overwritten by then
+			over := false
+			for i := range recs {
+				c2 := &recs[i]
+				if c2.Op.K == model.CSetCallback && c2.Done && c2.Inv > c.Ret && c2.Ret < r.Inv {
+					over = true
+					break
+				}
+			}
+			if !over {
+				out = append(out, st(c))
+			}
+		case !r.Done || c.Inv < r.Ret:
+			out = append(out, st(c)) // overlaps r
+		}
+	}
+	return out
+}
+
 func callbackSwapOverlaps(recs []Rec, r *Rec) bool {
 	for j := range recs {
 		c := &recs[j]
